@@ -309,6 +309,34 @@ func init() {
 	reg[TRepDict]("repdict")
 }
 
+// Shapes added after a seeding agent pointed at tag combinations the catalogue lacked (F50-F54):
+// json on optional strings / byte slices, an optional non-pointer struct, optional time.Time below
+// optional and repeated ancestors, 64-bit Go integers mapped to 32-bit columns.
+type OptGroup struct {
+	A int64  `parquet:"a"`
+	B string `parquet:"b"`
+}
+
+type TimeIn struct {
+	T  time.Time  `parquet:"t,optional"`
+	N  int64      `parquet:"n"`
+	TP *time.Time `parquet:"tp,timestamp(microsecond)"`
+}
+
+type TTagMix struct {
+	ID  int64     `parquet:"id"`
+	J   string    `parquet:"j,json,optional"`
+	JB  []byte    `parquet:"jb,json,optional"`
+	O   OptGroup  `parquet:"o,optional"`
+	P   *TimeIn   `parquet:"p"`
+	LT  []TimeIn  `parquet:"lt"`
+	I32 int64     `parquet:"i32,int(32)"`
+	I   int       `parquet:"i,int(32)"`
+	OT  time.Time `parquet:"ot,optional,timestamp(millisecond)"`
+}
+
+func init() { reg[TTagMix]("tagmix") }
+
 func typeByName(n string) *typeEntry {
 	for _, t := range catalogue {
 		if t.Name == n {
